@@ -22,7 +22,7 @@ func init() {
 	register(&simk.Prop{
 		ID:    "C36",
 		Level: "fault_enumeration",
-		Rule: "seeded histories (<=12 ops) of local chunk adds with certificate, remote chunk adds, certificate updates and minimum advances that save some pending chunks as accepted and expire others, over <=6 chunks of 3 producers, on the real ChunkStorage over a crash-injecting database; for every history the durable writes W are counted and the history re-run crashing before write k for each k (exhaustive for that history), followed by a reopen; after every reopen (and at the end) the pending set, the accepted set, the readable chunks and the per-producer pending weight, all read through the public API, are compared with a set model; " +
+		Rule: "seeded histories (<=12 ops) of local chunk adds with certificate, remote chunk adds, certificate updates and minimum advances that save some pending chunks as accepted (sometimes one the same advance would otherwise expire) and expire others, over <=6 chunks of 3 producers, on the real ChunkStorage over a crash-injecting database; for every history the durable writes W are counted and the history re-run crashing before write k for each k (exhaustive for that history), followed by a reopen; after every reopen (and at the end) the pending set, the accepted set, the readable chunks and the per-producer pending weight, all read through the public API, and the minimum expiry (verif-tagged accessor) are compared with a set model; after a crash the observed state must equal, in every respect at once, either the model before the interrupted operation or the model after it; " +
 			"non-trivial = the history saves or expires a chunk; distinct = distinct (history, crash point) hashes",
 		Exec:        c36,
 		Real:        []string{"x/dsmr ChunkStorage (AddLocalChunkWithCert, VerifyRemoteChunk, SetChunkCert, SetMin, GetChunkBytes, CheckRateLimit, init)", "internal/emap", "dsmr chunk encoding (ParseChunk)"},
@@ -168,7 +168,8 @@ func c36(r *simk.Run) *simk.Violation {
 			m := sh.min + int64(c.Intn(4))*10
 			var save []int
 			for i := range chunks {
-				if sh.pending[i] && chunks[i].expiry >= m && c.Bool(0.5) {
+				// mostly chunks that stay valid; sometimes also one the same advance would otherwise expire
+				if sh.pending[i] && (chunks[i].expiry >= m || c.Bool(0.3)) && c.Bool(0.5) {
 					if r.Avoid {
 						continue
 					}
@@ -208,7 +209,29 @@ func c36(r *simk.Run) *simk.Violation {
 		r.Nontrivial()
 	}
 
-	run := func(disk *Disk, crashBefore int, m *c36Model, start int) (*simk.Violation, int, bool) {
+	// the durable effect of a completed operation on the model
+	applyOp := func(m *c36Model, op c36Op) {
+		switch op.Kind {
+		case "local", "remote":
+			m.pending[op.Chunk] = true
+		case "setmin":
+			for _, i := range op.Save {
+				if m.pending[i] {
+					delete(m.pending, i)
+					m.accepted[i] = true
+				}
+			}
+			for i := range chunks {
+				if m.pending[i] && chunks[i].expiry < op.Min {
+					delete(m.pending, i)
+				}
+			}
+			m.min = op.Min
+		}
+	}
+	// alt (optional): the model if the operation interrupted by the crash became durable as a whole;
+	// after the reopen the storage must equal m or alt in every observed respect
+	run := func(disk *Disk, crashBefore int, m *c36Model, start int, alt *c36Model) (*simk.Violation, int, bool) {
 		db := disk.Open()
 		if crashBefore >= 0 {
 			db.CrashBeforeWrite(crashBefore)
@@ -245,6 +268,9 @@ func c36(r *simk.Run) *simk.Violation {
 					return &simk.Violation{Class: cls, Detail: fmt.Sprintf("%s: chunk %d readable=%v, model says %v; ops=%v", when, i, readable[i], wantReadable, ops)}
 				}
 			}
+			if got := st.VerifMinimumExpiry(); got != m.min {
+				return &simk.Violation{Class: "C36/minimum-expiry-differs", Detail: fmt.Sprintf("%s: minimum expiry %d, model says %d; ops=%v", when, got, m.min, ops)}
+			}
 			for pi := range producers {
 				if weight[pi] != wantW[pi] {
 					return &simk.Violation{Class: "C36/pending-weight-differs", Detail: fmt.Sprintf("%s: producer %d pending weight %d, model says %d; ops=%v", when, pi, weight[pi], wantW[pi], ops)}
@@ -260,7 +286,15 @@ func c36(r *simk.Run) *simk.Violation {
 			return &simk.Violation{Class: "C36/open-fails", Detail: err.Error()}, start, false
 		}
 		if v := compare(st, fmt.Sprintf("after (re)open before op %d", start)); v != nil {
-			return v, start, false
+			if alt == nil {
+				return v, start, false
+			}
+			*m = *alt
+			if v2 := compare(st, fmt.Sprintf("after (re)open before op %d", start)); v2 != nil {
+				v.Class = "C36/interrupted-operation-half-applied"
+				v.Detail = "neither the state before nor the state after the interrupted operation: " + v.Detail + " | against the completed operation: " + v2.Detail
+				return v, start, false
+			}
 		}
 		for i := start; i < len(ops); i++ {
 			op := ops[i]
@@ -270,11 +304,11 @@ func c36(r *simk.Run) *simk.Violation {
 				ch := chunks[op.Chunk]
 				cert := &dsmr.ChunkCertificate{ChunkReference: dsmr.ChunkReference{ChunkID: ch.id, Producer: producers[ch.producer], Expiry: ch.expiry}, Signature: &warp.BitSetSignature{}}
 				if err = st.AddLocalChunkWithCert(ch.c, cert); err == nil {
-					m.pending[op.Chunk] = true
+					applyOp(m, op)
 				}
 			case "remote":
 				if _, err = st.VerifyRemoteChunk(chunks[op.Chunk].c); err == nil {
-					m.pending[op.Chunk] = true
+					applyOp(m, op)
 				}
 			case "cert":
 				ch := chunks[op.Chunk]
@@ -290,18 +324,7 @@ func c36(r *simk.Run) *simk.Violation {
 					}
 				}
 				if err = st.SetMin(op.Min, save); err == nil {
-					for _, i := range op.Save {
-						if m.pending[i] {
-							delete(m.pending, i)
-							m.accepted[i] = true
-						}
-					}
-					for i := range chunks {
-						if m.pending[i] && chunks[i].expiry < op.Min {
-							delete(m.pending, i)
-						}
-					}
-					m.min = op.Min
+					applyOp(m, op)
 				}
 			case "reopen":
 				db.Kill()
@@ -325,14 +348,14 @@ func c36(r *simk.Run) *simk.Violation {
 	}
 	disk := NewDisk()
 	m := &c36Model{pending: map[int]bool{}, accepted: map[int]bool{}}
-	if v, _, _ := run(disk, -1, m, 0); v != nil {
+	if v, _, _ := run(disk, -1, m, 0, nil); v != nil {
 		return v
 	}
 	W := disk.Writes
 	for k := 0; k < W; k++ {
 		d := NewDisk()
 		mm := &c36Model{pending: map[int]bool{}, accepted: map[int]bool{}}
-		v, at, crashed := run(d, k, mm, 0)
+		v, at, crashed := run(d, k, mm, 0, nil)
 		if v != nil {
 			v.Detail = fmt.Sprintf("[crash before write %d] ", k) + v.Detail
 			return v
@@ -343,7 +366,18 @@ func c36(r *simk.Run) *simk.Violation {
 		s.FaultFired("crash-before-write")
 		r.Fingerprint("crash@%d", k)
 		// the interrupted op is lost (nothing re-delivers a chunk add); continue with the next one
-		if v, _, _ := run(d, -1, mm, at+1); v != nil {
+		var alt *c36Model
+		if at < len(ops) {
+			alt = &c36Model{pending: map[int]bool{}, accepted: map[int]bool{}, min: mm.min}
+			for k2, v2 := range mm.pending {
+				alt.pending[k2] = v2
+			}
+			for k2, v2 := range mm.accepted {
+				alt.accepted[k2] = v2
+			}
+			applyOp(alt, ops[at])
+		}
+		if v, _, _ := run(d, -1, mm, at+1, alt); v != nil {
 			v.Class += "-after-crash"
 			v.Detail = fmt.Sprintf("[crashed before write %d during op %d, reopened] ", k, at) + v.Detail
 			return v
